@@ -225,6 +225,13 @@ def per_channel(val, D, nchan):
             if not (sp.sympify(a).is_Integer and sp.sympify(b).is_Integer):
                 return None
             a, b, _ = slice(int(a), int(b)).indices(nchan)
+        elif getattr(rest[0].func, "__name__", "") == "IdxArr":
+            chans = [int(c_) for c_ in rest[0].args]
+            if any(not 0 <= c_ < nchan for c_ in chans):
+                return None
+            for c in chans:
+                out.append((ds[1], ds[2], c))
+            continue
         else:
             return None
         for c in range(a, b):
